@@ -38,16 +38,16 @@ Proof. intros o. unfold allowed_severities; simpl. split; intros x; simpl; tauto
 (* Non-vacuity: sh:not over an Info-severity shape that fails. The waiver does not flip the
    nested conformance (the defect fixed in /repo 4cb5e8c), the result list is the same under
    the three settings and the verdicts are monotone. *)
-Definition T : shape := {| sid := IRI 101; spath := None; deact := false; ssev := t_Info; stargets := no_targets;
+Definition T : shape := {| sid := IRI 101; spath := None; deact := false; ssev := t_Info; smsgs := []; stargets := no_targets;
                            scomps := [CLeaf (LIn [])] |}.
-Definition S : shape := {| sid := IRI 100; spath := None; deact := false; ssev := t_Violation;
+Definition S : shape := {| sid := IRI 100; spath := None; deact := false; ssev := t_Violation; smsgs := [];
                            stargets := {| t_nodes := [IRI 7]; t_classes := []; t_implicit := false; t_subjects_of := []; t_objects_of := [] |};
                            scomps := [CNot [IRI 101]] |}.
-Definition U : shape := {| sid := IRI 102; spath := None; deact := false; ssev := t_Info;
+Definition U : shape := {| sid := IRI 102; spath := None; deact := false; ssev := t_Info; smsgs := [];
                            stargets := {| t_nodes := [IRI 7]; t_classes := []; t_implicit := false; t_subjects_of := []; t_objects_of := [] |};
                            scomps := [CLeaf (LIn [])] |}.
 Definition oo (i w:bool) := {| abort := false; allow_infos := i; allow_warnings := w; max_depth := 15; focus_filter := [] |}.
 Example C11_nonvacuous :
-  validate_impl0 (oo false false) [] [] [S; T; U] = Ok (false, [VR (IRI 7) (Some (IRI 7)) None sh_InConstraintComponent (IRI 102) t_Info []])
-  /\ validate_impl0 (oo true false) [] [] [S; T; U] = Ok (true, [VR (IRI 7) (Some (IRI 7)) None sh_InConstraintComponent (IRI 102) t_Info []]).
+  validate_impl0 (oo false false) [] [] [S; T; U] = Ok (false, [VR (IRI 7) (Some (IRI 7)) None sh_InConstraintComponent (IRI 102) t_Info [] []])
+  /\ validate_impl0 (oo true false) [] [] [S; T; U] = Ok (true, [VR (IRI 7) (Some (IRI 7)) None sh_InConstraintComponent (IRI 102) t_Info [] []]).
 Proof. vm_compute. split; reflexivity. Qed.
